@@ -14,12 +14,14 @@ import (
 // the same Inv_gb pre-state with every access recorded; the solver decides which conflicting
 // accesses have no common lock.
 
-func (w *verifWorld) pickOp(tag string) func() {
+func (w *verifWorld) pickOp(tag string) func() { return w.pickOpOn(tag, w.pk) }
+
+func (w *verifWorld) pickOpOn(tag string, p *gcpPicker) func() {
 	mi := verifInt(tag + "_method")
 	verifAssume(mi >= 0 && mi < vMethods)
 	method := []string{"/plain", "/bind", "/bound", "/unbind"}[mi]
 	ctx := &verifCtx{gcp: &gcpContext{reqMsg: w.mkMsg(tag + "_req"), replyMsg: w.mkMsg(tag + "_reply")}, hasGcp: true, done: make(chan struct{})}
-	return func() { w.pk.Pick(balancer.PickInfo{FullMethodName: method, Ctx: ctx}) }
+	return func() { p.Pick(balancer.PickInfo{FullMethodName: method, Ctx: ctx}) }
 }
 
 func (w *verifWorld) uscOp() func() {
@@ -62,6 +64,9 @@ func VerifH_race() {
 		a, b = w.doneOp("d1"), w.doneOp("d2")
 	case 4: // a completion and a pick
 		a, b = w.doneOp("d1"), w.pickOp("p2")
+	case 6: // two picks on two picker generations (an RPC that loaded the old picker, another on the new one)
+		verifAssume(len(w.other.scRefs) > 0)
+		a, b = w.pickOp("p1"), w.pickOpOn("p2", w.other)
 	case 5: // a pick and a resolver update
 		a = w.pickOp("p1")
 		b = func() {
